@@ -27,13 +27,15 @@ def run_tlc(ctx, mode, universe, maxlen, label):
     return ctx.tlc(MODULE, cfg, defs=defs, label=label, coverage=True, timeout=1800)
 
 
-def make_params(grid):
+def make_params(grid, ints_when_integral=False):
     from pyphysim.simulations.parameters import SimulationParameters
     d = {}
     np_ = len(grid)
     for p in ADD_ORDER:
         if p < np_:
             vals = [VALUES[p][v] for v in grid[p]]
+            if ints_when_integral and p == 0 and all(float(x).is_integer() for x in vals):
+                vals = [int(x) for x in vals]       # the same values with another element type than the other operand's
             d[NAMES[p]] = np.array(vals) if p == 2 else vals      # one parameter is given as a numpy array
     d.update(FIXED)
     params = SimulationParameters.create(d)
@@ -73,7 +75,7 @@ def token(side, idx):
 
 def make_results(grid, side):
     from pyphysim.simulations.results import Result, SimulationResults
-    params = make_params(grid)
+    params = make_params(grid, ints_when_integral=(side == 0))
     sr = SimulationResults()
     sr.set_parameters(params)
     n = params.get_num_unpacked_variations()
